@@ -467,6 +467,18 @@ func (rc *RunCtx) ServerDoc(d int) (string, *database.DocInfo, error) {
 	if err != nil {
 		return "", nil, err
 	}
+	// the oracle must not help the system: a rebuild refreshes the snapshot cache, and a
+	// stale entry it would have replaced is exactly what some defects leave behind
+	// (seeded change C10-1). The cache entry is put back as it was.
+	key := info.RefKey()
+	old, had := w.gen.be.Cache.Snapshot.Peek(key)
+	defer func() {
+		if had {
+			w.gen.be.Cache.Snapshot.Add(key, old)
+		} else {
+			w.gen.be.Cache.Snapshot.Remove(key)
+		}
+	}()
 	doc, err := packs.BuildInternalDocForServerSeq(ctx, w.gen.be, info, info.ServerSeq)
 	if err != nil {
 		return "", info, err
